@@ -161,7 +161,7 @@ func c09Run(c fw.Case, env *fw.Env) fw.Result {
 		}
 	case "stop":
 		for i := 0; i < p.N; i++ {
-			for _, phase := range []string{"connected", "backoff-never-connected", "backoff-after-connected", "in-dialer-first", "in-dialer-later", "waiting-connack", "cancel-before-first", "cancel-in-dialer"} {
+			for _, phase := range []string{"connected", "backoff-never-connected", "backoff-after-connected", "in-dialer-first", "in-dialer-later", "waiting-connack", "cancel-before-first", "cancel-in-dialer", "cancel-at-first-active"} {
 				sig, det, trc := c09Stop(rng, phase)
 				r.Evals++
 				if sig == "inconclusive" {
@@ -218,12 +218,24 @@ func c09Stop(rng *rand.Rand, phase string) (sig, detail string, trace []string) 
 	if phase == "backoff-never-connected" || phase == "cancel-before-first" {
 		d.FailAll(true)
 	}
+	var cancelConnect context.CancelFunc
+	if phase == "cancel-at-first-active" {
+		// the Connect context is cancelled from inside the ConnState(Active) callback of the first
+		// connection, i.e. exactly when the first CONNACK has been accepted
+		d.OnActive = func(k int) {
+			if k == 1 && cancelConnect != nil {
+				tr.Note("cancelling the Connect context inside ConnState(Active)")
+				cancelConnect()
+			}
+		}
+	}
 	rc, err := mqtt.NewReconnectClient(d, mqtt.WithReconnectWait(time.Duration(base)*time.Millisecond, time.Duration(max)*time.Millisecond), mqtt.WithTimeout(40*time.Millisecond))
 	if err != nil {
 		return "inconclusive", err.Error(), nil
 	}
 	ctx, cancel := context.WithCancel(context.Background())
 	defer cancel()
+	cancelConnect = cancel
 	connDone := make(chan error, 1)
 	go func() {
 		cs := tr.Call("Connect", "")
@@ -322,6 +334,16 @@ func c09Stop(rng *rand.Rand, phase string) (sig, detail string, trace []string) 
 		case <-parked:
 		case <-time.After(scen.Watchdog):
 			return "inconclusive", "second dial not reached", nil
+		}
+	case "cancel-at-first-active":
+		// Connect returns either nil (it saw the established connection first) or the context's error
+		select {
+		case err := <-connDone:
+			if err != nil && !errors.Is(err, context.Canceled) {
+				return fail("cancel-error", "Connect returned %v", err)
+			}
+		case <-time.After(scen.Watchdog):
+			return fail("connect-does-not-return-on-cancel", "Connect did not return although its context was cancelled when the first CONNACK was accepted")
 		}
 	case "waiting-connack":
 		if !tr.WaitFor(scen.Watchdog, func() bool {
@@ -451,7 +473,7 @@ func init() {
 		Level: "fault_enumeration",
 		Rule: "life: seeded sequences of connection-ending causes (idle peer close, malformed packet from the broker, refused CONNACK codes 1-5, absent CONNACK with a connect timeout, cuts of 4 kinds on any request packet, dial errors incl. runs of consecutive failures, keep-alive silence, outages of random length) on the real ReconnectClient with back-off (base,max) in {(1,1),(1,8),(2,16),(4,4),(8,2),(3,5)} ms; " +
 			"monitor: at every dial.start all earlier transports have been closed by the library; first packet of every connection is exactly one CONNECT with identical client id/options; the gap between the end of an attempt (dial error return / first library Close of that transport) and the next dial.start is >= min(base*2^k, max) with k reset by a successful connect (sound lower bound); after faults stop a connection is established (sentinel). " +
-			"stop: Disconnect steered into every phase (connected, back-off wait before/after a first connection, inside DialContext of the first/a later dial, waiting for CONNACK), cancellation before the first success with a 60 s back-off, and cancellation while the first dial is in progress (the transport it hands out must be closed, no further dial); Disconnect must return without panic, no dial.start afterwards. Non-trivial: runs with >=1 redial; each stop phase executed.",
+			"stop: Disconnect steered into every phase (connected, back-off wait before/after a first connection, inside DialContext of the first/a later dial, waiting for CONNACK), cancellation before the first success with a 60 s back-off, and cancellation while the first dial is in progress (the transport it hands out must be closed, no further dial), cancellation exactly when the first CONNACK is accepted (a later Disconnect must still return); Disconnect must return without panic, no dial.start afterwards. Non-trivial: runs with >=1 redial; each stop phase executed.",
 		Assumptions: []string{"time.After never fires early on the monotonic clock the harness also reads, so lower bounds are sound under load", "absence of further dials after Disconnect is observed for 3x the maximum back-off"},
 		Gen:         c09Gen,
 		Run:         c09Run,
